@@ -17,13 +17,14 @@ import (
 func init() { register("cr-run", crRun) }
 
 type crCase struct {
-	ID      int       `json:"id"`
-	Input   inputSpec `json:"input"`
-	Opts    wopts     `json:"opts"`
-	Reads   []int     `json:"reads"`             // buffer sizes, cyclic
-	Frag    []int     `json:"frag,omitempty"`    // fragmentation of the source
-	FailPos int       `json:"failPos,omitempty"` // the source fails after delivering this many bytes (0 = never, -1 = at once)
-	Reapply bool      `json:"reapply,omitempty"` // apply the options a second time (Apply resets first)
+	ID       int       `json:"id"`
+	Input    inputSpec `json:"input"`
+	Opts     wopts     `json:"opts"`
+	Reads    []int     `json:"reads"`              // buffer sizes, cyclic
+	Frag     []int     `json:"frag,omitempty"`     // fragmentation of the source
+	FailPos  int       `json:"failPos,omitempty"`  // the source fails after delivering this many bytes (0 = never, -1 = at once)
+	FailKind int       `json:"failKind,omitempty"` // 0 plain error, 1 wraps io.EOF, 2 wraps io.ErrUnexpectedEOF
+	Reapply  bool      `json:"reapply,omitempty"`  // apply the options a second time (Apply resets first)
 	// Prelude: before the judged stream, the same object compresses PreLen bytes with block size code
 	// PreCode completely, and is then Reset and re-configured (reuse of the encoder instance)
 	PreCode int `json:"preCode,omitempty"`
@@ -38,6 +39,7 @@ type crCase struct {
 type failingSource struct {
 	fragReader
 	failPos int
+	kind    int
 }
 
 func (f *failingSource) Read(p []byte) (int, error) {
@@ -47,7 +49,7 @@ func (f *failingSource) Read(p []byte) (int, error) {
 			lim = 0
 		}
 		if f.pos >= lim {
-			return 0, errInjected
+			return 0, injected(f.kind)
 		}
 		if len(p) > lim-f.pos {
 			p = p[:lim-f.pos]
@@ -92,7 +94,7 @@ func crRun(args []string) error {
 				}
 				done <- r
 			}()
-			src := &failingSource{fragReader: fragReader{data: input, pattern: c.Frag}, failPos: c.FailPos}
+			src := &failingSource{fragReader: fragReader{data: input, pattern: c.Frag}, failPos: c.FailPos, kind: c.FailKind}
 			zr := lz4.NewCompressingReader(src)
 			if c.PreCode != 0 {
 				pre := &failingSource{fragReader: fragReader{data: bytes.Repeat([]byte("prelude "), c.PreLen/8+1)[:c.PreLen]}}
